@@ -87,6 +87,41 @@ func VerifC09_CloseReturns() {
 	}
 }
 
+// VerifC09_CloseWhileCallbackInProgress: graphsync runs its callbacks on its own loops and a local
+// cancel is serialised behind the callbacks already in progress there, so gs.Cancel may only
+// complete after such a callback - which needs the channel - has returned. Closing (by the user,
+// the monitor or on a rejected request) must still return: it must not wait for the cancel while
+// holding what the callback needs.
+func VerifC09_CloseWhileCallbackInProgress() {
+	f := verifNewTransport()
+	p := peer.ID(zz.String("p"))
+	tid := datatransfer.TransferID(zz.Uint64("tid"))
+	chid := datatransfer.ChannelID{Initiator: p, Responder: f.self, ID: tid}
+	r0, r1 := verifRid("r0"), verifRid("r1")
+	zz.Assume(r0 != r1)
+	req := verifArbitraryRequest("req")
+	zz.SetInt(&req.TransferId, uint64(tid))
+	f.t.gsReqRecdHook(p, verifReqWith(r0, req), &verifActions{})
+	which := zz.Choice("callback", 4)
+	f.gs.OnCancel = func(id graphsync.RequestID) {
+		switch which {
+		case 0:
+			f.t.gsRequestorCancelledListener(p, verifReq(r0)) // the remote cancelled at the same time
+		case 1:
+			f.t.gsReqRecdHook(p, verifReqWith(r1, req), &verifActions{}) // the remote restarts at the same time
+		case 2:
+			f.t.gsBlockSentHook(p, &verifReqData{id: r0}, verifArbitraryBlock())
+		case 3:
+			f.t.gsCompletedResponseListener(p, verifReq(r0), graphsync.RequestCancelled)
+		}
+	}
+	err := f.t.CloseChannel(context.Background(), chid) // must return
+	zz.Settle()
+	zz.Assert(f.gs.count(gsCancel) == 1 && f.gs.Calls[f.gs.last(gsCancel)].Returned, "the cancel went through once the callback had returned")
+	_ = err
+	zz.Reach("close returned although a callback for the channel was in progress")
+}
+
 // VerifC09_TransportReleasedAfterClose: whatever became of the channel's graphsync requests
 // before the ending - never started, one live request, a request superseded by a restart plus the
 // current one, closed locally (the transport forgets its current request at that point), or
